@@ -131,6 +131,35 @@ var arrayUnit = qUnit{
 		{Func: "Array.Address", Lean: "Array_Address"},
 		{Func: "Array.splitRoot", Lean: "Array_splitRoot"},
 		{Func: "Array.promoteChildAsNewRoot", Lean: "Array_promoteChildAsNewRoot"},
+		// the DESCENT: an index slab reads its child from the storage and calls the same operation on it (dynamic
+		// dispatch); recursion on a depth argument (`none` at depth 0: the tree is deeper than the argument)
+		{Func: "ArrayMetaDataSlab.Get", Lean: "ArrayMetaDataSlab_Get", Rec: true},
+		{Func: "ArrayMetaDataSlab.Set", Lean: "ArrayMetaDataSlab_Set", Rec: true},
+		{Func: "ArrayMetaDataSlab.Insert", Lean: "ArrayMetaDataSlab_Insert", Rec: true},
+		{Func: "ArrayMetaDataSlab.Remove", Lean: "ArrayMetaDataSlab_Remove", Rec: true},
+		{Func: "ArrayMetaDataSlab.PopIterate", Lean: "ArrayMetaDataSlab_PopIterate", Rec: true},
+		// array.go: the top-level operations (the nesting machinery is a parameter: EnvMethods)
+		{Func: "Array.Count", Lean: "Array_Count"},
+		{Func: "Array.Get", Lean: "Array_Get", Fuel: true},
+		{Func: "Array.set", Lean: "Array_set", Fuel: true},
+		{Func: "Array.Insert", Lean: "Array_Insert", Fuel: true},
+		{Func: "Array.Append", Lean: "Array_Append", Fuel: true},
+		{Func: "Array.remove", Lean: "Array_remove", Fuel: true},
+		{Func: "ArrayDataSlab.ExtraData", Lean: "ArrayDataSlab_ExtraData"},
+		{Func: "ArrayMetaDataSlab.ExtraData", Lean: "ArrayMetaDataSlab_ExtraData"},
+		{Func: "ArrayDataSlab.Inlined", Lean: "ArrayDataSlab_Inlined"},
+		{Func: "ArrayMetaDataSlab.Inlined", Lean: "ArrayMetaDataSlab_Inlined"},
+		{Func: "Array.Inlined", Lean: "Array_Inlined"},
+		{Func: "Array.PopIterate", Lean: "Array_PopIterate", Fuel: true},
+	},
+	EnvMethods: map[string]qEnvMethod{
+		// translated by the stateless engine (Gen/Trans.lean, TransEq.ArrayMetaDataSlab_childSlabIndexInfo_eq_model)
+		"ArrayMetaDataSlab.childSlabIndexInfo": {},
+		// the nesting machinery (parent callbacks, mutableElementIndex): out of scope, the array is threaded through
+		"Array.setCallbackWithChild": {RecvMut: true},
+		"Array.notifyParentIfNeeded": {RecvMut: true},
+		"Array.incrementIndexFrom":   {RecvMut: true},
+		"Array.decrementIndexFrom":   {RecvMut: true},
 	},
 }
 
